@@ -16,3 +16,4 @@ open HmcVerif.C06
 #print axioms hmc_chain_good
 #print axioms hmc_chain_stays_in_box
 #print axioms corrector_lands_in_box
+#print axioms HmcVerif.BoxTree.ebox_support
